@@ -82,6 +82,10 @@ func NewService(
 }
 
 func (s *Service) Start(context.Context) error {
+	if s.ctx != nil && s.ctx.Err() == nil {
+		// already running: keep the lifecycle context the running subscriptions watch
+		return nil
+	}
 	s.ctx, s.cancel = context.WithCancel(context.Background())
 	return nil
 }
@@ -118,6 +122,9 @@ func (s *Service) Subscribe(ctx context.Context, ns libshare.Namespace) (<-chan 
 		return nil, err
 	}
 
+	// the lifecycle context of the service run this subscription belongs to: a later Start must not
+	// make the subscription miss the Stop in between
+	svcCtx := s.ctx
 	blobCh := make(chan *SubscriptionResponse, 16)
 	go func() {
 		defer close(blobCh)
@@ -152,7 +159,7 @@ func (s *Service) Subscribe(ctx context.Context, ns libshare.Namespace) (<-chan 
 						// operation successful, break the loop
 						break
 					}
-					if s.ctx.Err() != nil {
+					if svcCtx.Err() != nil {
 						// service stopped, retrying a failing retrieval would keep the subscription alive forever
 						log.Debugw("blobsub: canceling subscription due to service ctx closing", "namespace", ns.ID())
 						return
@@ -172,7 +179,7 @@ func (s *Service) Subscribe(ctx context.Context, ns libshare.Namespace) (<-chan 
 			case <-ctx.Done():
 				log.Debugw("blobsub: canceling subscription due to user ctx closing", "namespace", ns.ID())
 				return
-			case <-s.ctx.Done():
+			case <-svcCtx.Done():
 				log.Debugw("blobsub: canceling subscription due to service ctx closing", "namespace", ns.ID())
 				return
 			}
